@@ -28,7 +28,7 @@ def dispatch (st : DState) (suite op : String) (inp : Json) : DState × Json :=
   match suite with
   | "frame" => (st, Mps.Drv.Frame.handle op inp)
   | "twoparty" | "twopartyconc" => let (h, j) := Mps.Drv.TwoParty.handle st.twoparty op inp; ({ st with twoparty := h }, j)
-  | "sess-impersonate" | "sess-equivocate" | "sess-keygen" | "sess-sign" | "sess-refresh" | "sess-derive" | "sess-tamper" | "sess-presign-abort" => (st, Mps.Drv.Sessions.handle op inp)
+  | "sess-deviate" | "sess-impersonate" | "sess-equivocate" | "sess-keygen" | "sess-sign" | "sess-refresh" | "sess-derive" | "sess-tamper" | "sess-presign-abort" => (st, Mps.Drv.Sessions.handle op inp)
   | "alg" | "algfind" => (st, Mps.Drv.Alg.handle op inp)
   | "pool" => (st, Mps.Drv.Pool.handle op inp)
   | "paillier" => (st, Mps.Drv.Paillier.handle op inp)
@@ -46,7 +46,7 @@ def dispatch (st : DState) (suite op : String) (inp : Json) : DState × Json :=
 def statelessSuites : List String :=
   ["zk", "frame", "session", "sig", "nonce", "alg", "algfind", "paillier", "ot", "pool",
    "start", "malform", "codec", "cmptree",
-   "sess-impersonate", "sess-equivocate", "sess-keygen", "sess-sign", "sess-refresh", "sess-derive", "sess-tamper", "sess-presign-abort"]
+   "sess-deviate", "sess-impersonate", "sess-equivocate", "sess-keygen", "sess-sign", "sess-refresh", "sess-derive", "sess-tamper", "sess-presign-abort"]
 
 def flush (hout : IO.FS.Stream) (pending : Array (Task String)) : IO Unit := do
   for t in pending do
